@@ -305,16 +305,17 @@ package pkg
 //@   requires rule != nil
 //@   nopanic
 //@   modifies $allocated
+// C03 also depends on this function: it is how a JSON rule's salience (negative values included) reaches the rule entry
 //@ func parseRule(rule) (r, err)
-//@   serves C18 C20
+//@   serves C18 C20 C03
 //@   opt strite=1
 //@   opt axioms=od_thenlines0,od_thenlinesN
 //@   requires rule != nil
 //@   nopanic
 //@   modifies $allocated
 //@   checks[C18] blank: len(rule.Name) == 0 || rule.When == nil || !ok_when(rule.When) || !ok_then(rule.Then) ==> err != nil
-//@   invariant@1[C18] acc: stringBuilder == "rule " + rule.Name + " " + fmt_q_GoStr(rule.Description) + " salience " + fmt_itoa(rule.Salience) + " {\n    when\n        " + tr_when(rule.When) + "\n    then\n" + thenLines(tr_then(rule.Then), i) && i <= len(thens) && thens == tr_then(rule.Then)
-//@   checks[C18] format: err == nil ==> r == "rule " + rule.Name + " " + fmt_q_GoStr(rule.Description) + " salience " + fmt_itoa(rule.Salience) + " {\n    when\n        " + tr_when(rule.When) + "\n    then\n" + thenLines(tr_then(rule.Then), len(tr_then(rule.Then))) + "}\n"
+//@   invariant@1[C18,C03] acc: stringBuilder == "rule " + rule.Name + " " + fmt_q_GoStr(rule.Description) + " salience " + fmt_itoa(rule.Salience) + " {\n    when\n        " + tr_when(rule.When) + "\n    then\n" + thenLines(tr_then(rule.Then), i) && i <= len(thens) && thens == tr_then(rule.Then)
+//@   checks[C18,C03] format: err == nil ==> r == "rule " + rule.Name + " " + fmt_q_GoStr(rule.Description) + " salience " + fmt_itoa(rule.Salience) + " {\n    when\n        " + tr_when(rule.When) + "\n    then\n" + thenLines(tr_then(rule.Then), len(tr_then(rule.Then))) + "}\n"
 // ---- C18: the translator's output is PINNED to the documented translation scheme (docs/en/GRL_JSON_en.md), function by
 // function: which operator spelling joins the operands, what is quoted, and above all where parentheses go - a nested operator
 // object is parenthesised unless it is obj/const/set/call or sits directly under `set`, so operands are grouped exactly as
